@@ -119,7 +119,10 @@ type connKit struct {
 //
 // NOTE: This is part of the net.Conn interface.
 func (k *connKit) Read(b []byte) (int, error) {
-	if k.recvBuffer.Len() == 0 {
+	// A message may have an empty payload; reading an empty buffer would
+	// report io.EOF in the middle of the stream, so keep going until there
+	// is data.
+	for k.recvBuffer.Len() == 0 && len(b) > 0 {
 		data := NewMsgData(ProtocolVersion, nil)
 		if err := k.impl.ReceiveControlMsg(data); err != nil {
 			return 0, err
